@@ -2,8 +2,10 @@
 """print the prompt for a seeding sub-agent: property text + its scratch worktree only (nothing from /verif)"""
 import json, sys
 pid, tag = sys.argv[1], sys.argv[2]
+avoid = sys.argv[3] if len(sys.argv) > 3 else ""
 p = [json.loads(l) for l in open('/verif/properties.jsonl') if json.loads(l)['id'] == pid][0]
 wt = "/tmp/seed-%s" % tag
+AVOID = ("A previous tester already produced a change in " + avoid + " - choose a DIFFERENT mechanism at a different code site (different function, ideally a different file).\n\n") if avoid else ""
 print(f"""You are testing how robust a semantic property of a Go code base is against realistic regressions. You get ONLY the property text and your own scratch git worktree of the repository (polynetwork/poly, a relay-chain node in Go); do not look at or use anything under /verif, and do not touch /repo itself.
 
 Worktree (yours, already created): {wt}
@@ -16,7 +18,7 @@ Code areas it is anchored in: {', '.join(p['anchors']['files'])}
 
 Task: produce ONE change to the code in the worktree that BREAKS this property while (a) the repository still compiles (`go build ./...` minus the two harmony packages that need cgo and never built here) and (b) the existing tests of the packages you touch, and of packages that import them, still pass exactly as before your change (many tests in this repository already fail before any change because they need network data — compare before/after, do not fix them). The change must look like a plausible maintenance edit (refactor, optimisation, "simplification", off-by-one, dropped guard, reordered steps, wrong key/field) — not sabotage with obvious markers — and it must need something SPECIFIC to manifest: a particular interleaving, a crash or fault at a particular point, a multi-step sequence of operations, an unusual input, or two cooperating sites that each look fine alone. It must NOT be exposed at once by ordinary use (e.g. not "every call fails").
 
-Also write a demonstration: a Go test file (or small program) placed in the worktree that FAILS with your change and PASSES without it, exercising the real code. Verify both directions yourself by saving and reverting the diff (`git diff > /tmp/p.diff; git apply -R /tmp/p.diff; ...; git apply /tmp/p.diff`). NEVER use `git stash`: the stash is shared by all worktrees of the repository and other agents work in sibling worktrees at the same time.
+{AVOID}Also write a demonstration: a Go test file (or small program) placed in the worktree that FAILS with your change and PASSES without it, exercising the real code. Verify both directions yourself by saving and reverting the diff (`git diff > /tmp/p.diff; git apply -R /tmp/p.diff; ...; git apply /tmp/p.diff`). NEVER use `git stash`: the stash is shared by all worktrees of the repository and other agents work in sibling worktrees at the same time.
 
 Environment: offline sandbox. For every shell call: `export GOFLAGS=-mod=mod GOPROXY=off GOSUMDB=off GOTOOLCHAIN=local`. Run go only inside {wt}. In-package tests of some packages do not build at all (consensus/vbft, txnpool/proc, native/service/cross_chain_manager/btc, .../bsc, .../msc, .../consensus_vote) — for those put the demonstration in an external test package or a small main program under {wt}/cmd/. Packages importing the harmony routers (native/service, native/service/header_sync, native/service/cross_chain_manager entrances, main) do not link here; avoid needing them in the demonstration. Keep CPU use modest (the machine is shared); no long-running processes.
 
